@@ -138,8 +138,10 @@ class C14(Check):
             ctx.violation("FastaSeq.rev_comp", case, "")
 
     # (b)
-    def check_scaffold(self, rows, ctx):
-        case = ["scaffold", [list(r) for r in rows]]
+    def check_scaffold(self, rows, ctx, pos=None):
+        # pos = (first row index, depth, position in the shard's enumeration): the library may keep state between the
+        # scaffolds of one process (a memo), so a replay re-runs the shard's enumeration up to this position
+        case = ["scaffold", [list(r) for r in rows]] + ([list(pos)] if pos else [])
         ctx.cur = case
         ctx.evaluations += 1
         if any(r[0] == "F" for r in rows):
@@ -309,15 +311,25 @@ class C14(Check):
             if fm.rows_of(got2) != fm.rows_of(want2):
                 ctx.violation("minus-bait-ne-reverse/after-edit", case + [list(op)], f"{got2.rows!r} expected {want2.rows!r}")
 
+    def enumerate_scaffolds(self, i, k, ctx, upto=None):
+        n = 0
+        for extra in range(0, k):
+            for tail in itertools.product(ROW_ALPHA, repeat=extra):
+                if upto is not None and n > upto:
+                    return
+                if upto is not None and n < upto:
+                    self.check_scaffold([ROW_ALPHA[i]] + list(tail), type(ctx)(ctx.tier, ctx.seed), pos=(i, k, n))  # history only
+                else:
+                    self.check_scaffold([ROW_ALPHA[i]] + list(tail), ctx, pos=(i, k, n))
+                n += 1
+
     def run_shard(self, shard, ctx):
         kind = shard[0]
         if kind == "table":
             self.check_table(shard[1], ctx)
         elif kind == "scaffolds":
             _, i, k = shard
-            for extra in range(0, k):
-                for tail in itertools.product(ROW_ALPHA, repeat=extra):
-                    self.check_scaffold([ROW_ALPHA[i]] + list(tail), ctx)
+            self.enumerate_scaffolds(i, k, ctx)
             self.check_scaffold([], ctx)
             ctx.sample({"scaffold": [list(ROW_ALPHA[i]), list(ROW_ALPHA[5])]})
         elif kind == "stream":
@@ -337,6 +349,9 @@ class C14(Check):
             unit = b"ACGTRYKMacgtnNBDHV-x"
             n = case[1]
             self.check_string((unit * (n // len(unit) + 1))[:n], ctx, label=f"len{n}")
+        elif kind == "scaffold" and len(case) > 2:
+            i, k, n = case[2]
+            self.enumerate_scaffolds(i, k, ctx, upto=n)
         elif kind == "scaffold":
             self.check_scaffold([tuple(tuple(x) if isinstance(x, list) else x for x in r) for r in case[1][: len(case[1])]], ctx)
         elif kind == "alllen":
